@@ -79,6 +79,9 @@ class HDMModel:
         else:
             self.div = divergence  # the user's function: f(reference_hist, test_hist)
         self.lam_mode = lam_mode
+        # argument order inside the bootstrap pairs (undocumented; only matters for an asymmetric user
+        # function): False = (earlier subset, later subset) as implemented, True = the other way round
+        self.boot_swap = False
         self.total = 0
         self.since = 0
         self.state = None
@@ -98,10 +101,16 @@ class HDMModel:
 
     # ------------------------------------------------------------------ helpers
     def _hists(self, data, los, his, bins):
-        return [
-            np.histogram(data[:, f], bins=bins, range=(los[f], his[f]))[0]
-            for f in range(data.shape[1])
-        ]
+        out = []
+        for f in range(data.shape[1]):
+            if los[f] == his[f]:
+                # zero range (a feature that is constant over reference and batch): whatever common
+                # edges span the single value, all the mass of both sides lies in one and the same bin
+                # (which one is irrelevant to every bin-permutation-invariant divergence)
+                out.append(np.array([len(data)] + [0] * (bins - 1)))
+            else:
+                out.append(np.histogram(data[:, f], bins=bins, range=(los[f], his[f]))[0])
+        return out
 
     def _bootstrap(self, ref, los, his, bins):
         n = len(ref)
@@ -117,7 +126,8 @@ class HDMModel:
             for j in range(i + 1, len(hs)):
                 # NB: the sum over the features, not their mean (as implemented;
                 # the estimate is an input of the property, see check assumptions)
-                dist.append(sum(float(self.div(hs[i][f], hs[j][f])) for f in range(F)))
+                a, b = (j, i) if self.boot_swap else (i, j)
+                dist.append(sum(float(self.div(hs[a][f], hs[b][f])) for f in range(F)))
         e = 0.0
         for a in range(len(dist)):
             for b in range(a + 1, len(dist)):
@@ -193,6 +203,9 @@ class HDMModel:
         if "eps" in info:
             exp["_eps"] = info["eps"]
         exp["_removed_e0"] = info.get("removed_e0", False)
+        if "sd" in info:
+            exp["_sd"] = info["sd"]
+            exp["_dof"] = info["dof"]
         return exp
 
     def _common(self):
@@ -257,6 +270,8 @@ class HDMModel:
                 else:
                     beta = eh + self.sig * sd
                 info["beta"] = beta
+                info["sd"] = sd
+                info["dof"] = n_ref + len(X) - 2
                 self.thresholds[self.total] = beta
                 all_zero = (
                     ce == 0.0 and beta == 0.0 and d == 0.0
